@@ -38,7 +38,8 @@ def gen_events(rng, n, rows, cols):
             if where < 0.3:
                 c, rw = rng.randrange(0, 52), rng.randrange(0, 5)      # tab bar hit boxes
             elif where < 0.5:
-                c, rw = rng.randrange(0, 12), rng.randrange(0, rows + 2)  # touchscreen buttons
+                # touchscreen buttons: three boxes stacked in the left ten columns below the tab bar
+                c, rw = rng.randrange(0, 12), rng.choice([rng.randrange(0, rows + 2), 4 + (rows - 5) // 6, 4 + (rows - 5) // 2, 4 + 5 * (rows - 5) // 6])
             elif where < 0.9:
                 c, rw = rng.randrange(0, max(1, cols)), rng.randrange(0, max(1, rows))
             else:
@@ -91,13 +92,29 @@ def run_session(col, binpath, rng, tag, scratch, n_events):
         opts += ["--locations", "(home,%.2f,%.2f)" % (lat + 0.1, lon - 0.1), "(x,0,0)"]
     if rng.random() < 0.2:
         opts += ["--scale", rng.choice(["0.01", "1.5", "100"])]
+    if rng.random() < 0.25:
+        # a valid airports file (drawn on Map and Coverage), with or without the time-zone filter
+        csvp = os.path.join(scratch, f"airports-{tag.replace('#', '-')}.csv")
+        with open(csvp, "w") as f:
+            f.write("icao,iata,name,city,subd,country,elevation,lat,lon,tz\n")
+            for k in range(rng.randint(0, 6)):
+                f.write(f"K{k:03d},A{k:02d},Field {k},Town,ST,US,{100 + k}.0,{lat + rng.uniform(-1, 1):.4f},{lon + rng.uniform(-1, 1):.4f},{rng.choice(['America/Chicago', 'Europe/Amsterdam'])}\n")
+        opts += ["--airports", csvp]
+        if rng.random() < 0.5:
+            opts += ["--airports-tz-filter", rng.choice(["America/Chicago", "Europe/Amsterdam,America/Chicago", "Nowhere"])]
+    if rng.random() < 0.15:
+        opts += ["--gpsd", "--gpsd-ip", "127.0.0.1"]  # nothing listens on the gpsd port: the helper thread must fail quietly
     rows, cols = rng.choice(SIZES[5:])
     lines = aircraft_lines(rng, n_air, lat, lon)
     plan = [("send", b"".join(lines))] if lines else []
     if traffic == "running" and lines:
-        for _ in range(120):
+        # aircraft 0 keeps moving (its superseded positions become the track drawn on the map)
+        la0, lo0 = enc.destination(lat, lon, 45.0, 20.0)
+        for k in range(120):
             plan.append(("sleep", 0.1))
             plan.append(("send", rng.choice(lines)))
+            la0, lo0 = enc.destination(la0, lo0, 90.0, 0.8)
+            plan.append(("send", enc.line(enc.long_frame(17, 5, 0x4A0000, enc.me_airpos(11, 30000, la0, lo0, k % 2 == 1)))))
     plan.append(("sleep", 120))
     events = gen_events(rng, n_events, rows, cols)
     quit_how = rng.choice(["q", "CtrlC"])
